@@ -23,11 +23,15 @@ type rcReq struct {
 	Kind  string   // "p0" "p1" "p2" "sub" "unsub"
 	Tag   string   // payload (publish)
 	Subs  []string // filters (sub: "filter:qos")
-	Phase byte     // 'B' before Connect, 'S' connected after settling, 'N' connected immediately, 'O' when the current link is down
+	Phase byte     // 'B' before Connect, 'S' connected after settling, 'N' connected immediately, 'O' when the current link is down, 'H' during the next reconnect handshake (CONNECT written, CONNACK not yet consumed)
+	Dup   bool     // publish: the caller's Message already has Dup=true (a forwarded / reused message)
 }
 
 func (r rcReq) String() string {
 	s := r.Kind
+	if r.Dup {
+		s += "+dupset"
+	}
 	if r.Tag != "" {
 		s += "(" + r.Tag + ")"
 	}
@@ -91,7 +95,7 @@ func (r *rcRun) submit(i int) {
 	var err error
 	switch q.Kind {
 	case "p0", "p1", "p2":
-		err = r.rc.Publish(ctx, &mqtt.Message{Topic: "t/" + q.Tag, QoS: mqtt.QoS(q.Kind[1] - '0'), Payload: []byte(q.Tag)})
+		err = r.rc.Publish(ctx, &mqtt.Message{Topic: "t/" + q.Tag, QoS: mqtt.QoS(q.Kind[1] - '0'), Payload: []byte(q.Tag), Dup: q.Dup})
 	case "sub":
 		var subs []mqtt.Subscription
 		for _, s := range q.Subs {
@@ -194,6 +198,12 @@ func rcExecute(cfg *rcCfg) *rcRun {
 				k := len(r.net.Conns)
 				vrt.Await("outage", func() bool {
 					return len(r.net.Conns) > 0 && len(r.net.Conns) >= k && r.net.Conns[len(r.net.Conns)-1].Down()
+				})
+			case 'H':
+				k := len(r.net.Conns)
+				vrt.Await("reconnect handshake", func() bool {
+					n := len(r.net.Conns)
+					return n > k && r.broker.PacketsOn(n-1) >= 1
 				})
 			}
 			r.submit(i)
